@@ -1,6 +1,6 @@
 (* C15 — data deletion. Property theorems only (quantification as in C16.v). *)
 From WF Require Import model.Base model.RunState model.Graph model.EngineBase model.Engine model.Monitors
-  proofs.RunStateProofs proofs.EngineTokens proofs.EngineProps.
+  model.Routing proofs.RunStateProofs proofs.EngineInv proofs.EngineTokens proofs.EngineProps proofs.Delivery proofs.DeliveryProps.
 
 (* DeleteData is accepted (a RequestedDataDeleted write happens) only for Completed, Cancelled or DataDeleted runs *)
 Theorem C15_request_eligible : forall c ops, hist_ok ops -> forall p r a, In (TStore (Some p) r a) (trace_of c ops) ->
@@ -20,3 +20,15 @@ Print Assumptions C15_scrub_shape.
 Theorem C15_eligible_table : forall s, ctl_documented s OpDeleteData = true <-> (s = RSCompleted \/ s = RSCancelled \/ s = RSDataDeleted).
 Proof. exact delete_eligible. Qed.
 Print Assumptions C15_eligible_table.
+
+(* an accepted deletion request is never lost (every history, any faults and crashes): its announcement is still in the outbox,
+   or in the log at or after the delete consumer's committed position (it will be delivered, again after a failure of the
+   delete function or a crash), or the run has been rewritten as DataDeleted *)
+Theorem C15_request_served : forall c ops, hist_ok ops ->
+  forall k r, nth_error (w_hist (fst (run_ops c ops))) k = Some r -> r_state r = RSReqDataDeleted ->
+  In (route (N.of_nat k + 1)%N r) (w_outbox (fst (run_ops c ops))) \/
+  (exists j e, nth_error (w_log (fst (run_ops c ops))) j = Some e /\ ev_of e (route 0%N r) /\
+               (get_cursor (fst (run_ops c ops)) EDelete <= j)%nat) \/
+  (exists prev r', In (TStore prev r' ROk) (snd (run_ops c ops)) /\ r_run r' = r_run r /\ r_state r' = RSDataDeleted).
+Proof. exact delete_request_served. Qed.
+Print Assumptions C15_request_served.
